@@ -34,6 +34,26 @@ type c17Scenario struct {
 type flakyListener struct {
 	net.Listener
 	calls, failAt int
+	onClose       func() // called when an accepted connection REALLY closes (its own Close, under the LimitListener's wrapper)
+}
+
+// c17Conn is the accepted connection as the operating system would see it: it stays open until its own Close runs,
+// whatever the wrapper above it has already released.
+type c17Conn struct {
+	net.Conn
+	closed  bool
+	onClose func()
+}
+
+func (k *c17Conn) Close() error {
+	vrt.Yield("conn-close") // closing takes time: other goroutines may run between what the wrapper does before and after it
+	if !k.closed {
+		k.closed = true
+		if k.onClose != nil {
+			k.onClose()
+		}
+	}
+	return k.Conn.Close()
 }
 
 type tempErr struct{}
@@ -47,7 +67,11 @@ func (f *flakyListener) Accept() (net.Conn, error) {
 	if f.calls == f.failAt {
 		return nil, tempErr{}
 	}
-	return f.Listener.Accept()
+	conn, err := f.Listener.Accept()
+	if err != nil {
+		return nil, err
+	}
+	return &c17Conn{Conn: conn, onClose: f.onClose}, nil
 }
 
 func TestVerifC17(t *testing.T) {
@@ -79,8 +103,8 @@ func TestVerifC17(t *testing.T) {
 			run := func(c *mc.Ctx) {
 				innerL, _ := vnet.Listen("tcp", port)
 				inner := innerL.(*vnet.MemListener)
-				ll := NewLimitListener(&flakyListener{Listener: inner, failAt: sc.failAt}, sc.cap0)
 				open := 0
+				ll := NewLimitListener(&flakyListener{Listener: inner, failAt: sc.failAt, onClose: func() { open-- }}, sc.cap0)
 				var accepted []net.Conn
 				closedTwice := map[int]bool{}
 				capNow := int(sc.cap0)
@@ -101,8 +125,8 @@ func TestVerifC17(t *testing.T) {
 							if err != nil {
 								return
 							}
-							// Accept returned: this connection has been admitted.  open is exact here: a closer
-							// decrements it BEFORE it closes (and thereby releases) its connection.
+							// Accept returned: this connection has been admitted.  open is exact here: it is decremented
+							// by the connection's own Close (c17Conn), i.e. not before the socket is really closed.
 							before := open
 							if len(sc.setmax) == 0 && before >= int(sc.cap0) {
 								viol = fmt.Sprintf("connection admitted while %d connections were open, cap %d (unchanged)", before, sc.cap0)
@@ -130,8 +154,7 @@ func TestVerifC17(t *testing.T) {
 					sch.Go(fmt.Sprintf("close%d", idx), func() {
 						if idx < len(accepted) && !closedTwice[idx] {
 							closedTwice[idx] = true
-							open--
-							accepted[idx].Close()
+							accepted[idx].Close() // open is decremented when the connection itself closes (c17Conn)
 							if sc.twice && k == 0 {
 								vrt.Yield("close-again")
 								accepted[idx].Close()
